@@ -41,9 +41,7 @@ func Flags(t *rapid.T, label string, pNone int) uint32 {
 	default:
 		f = uint32(rapid.IntRange(0, 31).Draw(t, label+"_mask"))
 	}
-	if rapid.IntRange(0, 39).Draw(t, label+"_hi") == 0 {
-		f |= uint32(rapid.IntRange(1, 7).Draw(t, label+"_hibits")) << 5
-	}
+	// (no bits beyond the five documented classes: what they mean is not specified)
 	return f
 }
 
